@@ -61,6 +61,10 @@ def finish(prop, tier, level, merged_list, t0, rule_text, assumptions, extra_cov
         herr += m.harness_errors
         notes += m.notes
         cut = cut or m.budget_cut
+    dump = os.environ.get("VSGMC_DUMP_KEYS")
+    if dump:
+        with open(dump, "w") as f:
+            json.dump([{"property": prop, "key": ks, "witness": (viol[ks]["item"] or {}).get("id"), "detail": viol[ks].get("detail")} for ks in sorted(viol)], f, indent=1, default=str)
     status = 0
     n_known = 0
     n_new = 0
